@@ -583,8 +583,11 @@ def run_batch(pid: str, tier: str, verif_seed: int, runs: Optional[int], workers
     except Exception as exc:
         print(f"HARNESS-ERROR evidence does not validate: {type(exc).__name__}: {exc}", flush=True)
         return 2
-    os.makedirs(os.path.join(VERIF, "evidence"), exist_ok=True)
-    with open(os.path.join(VERIF, "evidence", f"{pid}.json"), "w") as dst:
+    # evidence describes /repo itself; a run pointed at another tree (VERIF_REPO, used for seeded changes) files its
+    # report under scratch/ so that the committed evidence is never overwritten by it
+    evdir = os.path.join(VERIF, "evidence") if not os.environ.get("VERIF_REPO") else os.path.join(VERIF, "scratch", "evidence-other-tree")
+    os.makedirs(evdir, exist_ok=True)
+    with open(os.path.join(evdir, f"{pid}.json"), "w") as dst:
         json.dump(doc, dst, indent=1, sort_keys=True, default=core._default)
     if unreproducible and exit_code == 0:
         print(f"HARNESS-ERROR {unreproducible} violation class(es) were observed but none could be reproduced", flush=True)
